@@ -270,6 +270,28 @@ func narrowPrep(api *serix.API) {
 	must(api.RegisterTypeSettings([2]CFlag{}, lpTS(serix.LengthPrefixTypeAsByte)))
 }
 
+// CCuNode: an interface whose registered alternatives are custom Serializable types (with a one-byte object code) next
+// to an ordinary struct: `API.encode` takes the Serializable branch already at the interface-kinded value.
+type CCuNode interface{}
+
+type CCuPlain struct {
+	A uint16 `serix:""`
+}
+
+type CCuNodes struct {
+	N CCuNode           `serix:""`
+	L []CCuNode         `serix:",lenPrefix=uint8"`
+	O CCuNode           `serix:",optional"`
+	M map[uint8]CCuNode `serix:",lenPrefix=uint8"`
+}
+
+// customIfacePrep: customPrep plus the interface over the coded custom types.
+func customIfacePrep(api *serix.API) {
+	customPrep(api)
+	must(api.RegisterTypeSettings(CCuPlain{}, serix.TypeSettings{}.WithObjectType(uint8(64))))
+	must(api.RegisterInterfaceObjects((*CCuNode)(nil), CuSelfC{}, CuTabC(0), CCuPlain{}, (*CuSelfC)(nil)))
+}
+
 // customPrep registers the coded twins of the custom Serializable types.
 func customPrep(api *serix.API) {
 	must(api.RegisterTypeSettings(CuTabC(0), serix.TypeSettings{}.WithObjectType(uint8(61))))
@@ -319,6 +341,8 @@ var catalogue = []catEntry{
 	{name: "customs-ptr", top: &CCustoms{}, prep: customPrep},
 	{name: "top-custom-map", top: map[CuTab]uint32{}, ts: tsp(lpTS(serix.LengthPrefixTypeAsByte))},
 	{name: "top-custom-map2", top: map[CuTab]CuTab{}, ts: tsp(lpTS(serix.LengthPrefixTypeAsUint16))},
+	{name: "iface-custom", top: CCuNodes{}, prep: customIfacePrep},
+	{name: "top-iface-custom", top: []CCuNode{}, ts: tsp(lpTS(serix.LengthPrefixTypeAsByte)), prep: customIfacePrep},
 	{name: "top-custom-self", top: CuSelf{}},
 	{name: "top-custom-coded", top: CuSelfC{}, prep: customPrep},
 	{name: "top-custom-slice", top: []CuFreshC{}, ts: tsp(lpTS(serix.LengthPrefixTypeAsByte)), prep: customPrep},
